@@ -252,7 +252,7 @@ Proof.
   - destruct f as [|[|f]]; simpl; discriminate.
   - destruct f; simpl; discriminate.
   - destruct f; simpl; discriminate.
-  - intros C. apply bind_ok in C. destruct C as [a [C _]]. apply rewrap_ok in C. eapply unser_nil_not_ok; eauto.
+  - intros C. apply bind_ok in C. destruct C as [a [C _]]. apply (proj1 (rewrap_path_ok _ _ _)) in C. eapply unser_nil_not_ok; eauto.
   - destruct f; simpl; [discriminate|]. destruct f; simpl; discriminate.
   - destruct (resolve e id ns) as [[o e']|]; [apply IH | discriminate].
   - destruct (alookup root objs); [apply IH | discriminate].
